@@ -23,7 +23,7 @@
     channel operations, [select] and [sync.WaitGroup] behave as the LTS' labels say is assumed, not
     proved; the correspondence check replays observed histories of the real code through the LTS. *)
 From Coq Require Import List ZArith Arith.
-From ApiFu Require Import Idle.IdleModel Idle.IdleSpec Idle.IdleProofs Idle.IdleLive Idle.IdleHist Idle.IdleFair Idle.IdleSub.
+From ApiFu Require Import Idle.IdleModel Idle.IdleSpec Idle.IdleProofs Idle.IdleLive Idle.IdleHist Idle.IdleFair Idle.IdleSub Idle.IdleJoint.
 From ApiFu Require Fut.Plan Fut.ExecAsync Fut.ExecSync Fut.AsyncRun Fut.FutSpec Fut.FutProofs.
 Import ListNotations.
 
@@ -141,6 +141,23 @@ Section C15.
     forall w, In w (deliveries mid) ->
       visible p w = true /\ In w (created_of pre) /\ ~ In w (deliveries pre).
   Proof. exact (round_deliveries_outstanding p WF BF fx). Qed.
+
+  (** The same at the level of states, as a step of the joint executor + handler model: [K st s]
+      couples C02's executor state [st] with the LTS state [s] (item w = promise id w; created =
+      in the promise table; done = delivered; channel contents agree).  One idle round of the LTS
+      from a coupled state IS the transition [ExecAsync.idle] of C02's model with chosen = the
+      round's deliveries (it does not answer [None]: C02's "Stuck" cannot arise from this handler),
+      and the states are coupled again afterwards.  What is still missing for "response == response
+      with all resolvers synchronous" as a theorem is the executor's half: C02's [poll] between two
+      idle calls, seen through [K], as [LCreate] / [LConsume] / [LAbandon] steps ending where
+      [LIdleEnter] is enabled. *)
+  Theorem C15_idle_round_is_C02_idle_transition : forall st s m mid s',
+    no_chaining p ->
+    K st s -> Inv p s -> Sim p s m -> st_phase s = PPoll ->
+    run fx p s (LIdleEnter :: mid ++ [LIdleExit]) = Some s' -> ~ In LIdleExit mid ->
+    exists st', ExecAsync.idle (fun _ _ => deliveries mid) st = Some st' /\ K st' s' /\
+                ExecAsync.s_round st' = S (ExecAsync.s_round st) /\ st_phase s' = PPoll.
+  Proof. exact (fun st s m mid s' NC => round_preserves_coupling p WF BF NC fx st s m mid s'). Qed.
 
   (** With chaining a round may fill only inner promises (see the refutation below); the executor
       then calls the handler again, and altogether never more often than the request has promises. *)
@@ -271,6 +288,7 @@ Print Assumptions C15_subscription_stale_resolution_refuted_before_fix.
 Print Assumptions C15_idle_round_fulfils.
 Print Assumptions C15_idle_round_fair_unchained.
 Print Assumptions C15_idle_round_deliveries_outstanding.
+Print Assumptions C15_idle_round_is_C02_idle_transition.
 Print Assumptions C15_idle_rounds_bounded.
 Print Assumptions C15_round_fairness_refuted_with_chaining.
 Print Assumptions C15_handler_record_is_fair_scheduler.
